@@ -79,13 +79,14 @@ Proof. exact div_frame. Qed.
 Theorem C06_note_length : forall (ec : list tok -> res song -> res song) (base flag natural : Z) (len : list ch)
     (qlen vel timing oct : Z) (s : song),
   cur_ok s -> s_harmony_flag s = false -> tr_tie_notes (cur_track s) = [] ->
+  tr_rsv (cur_track s) = rsv_new ->       (* nothing reserved on the track: an l.onNote / v.onNote / .Random ... would change the note *)
   exists s',
     step_song ec (TNote base flag natural len qlen vel timing oct 0) s = Ok s' /\
     tr_timepos (cur_track s') = tr_timepos (cur_track s) + calc_length len (s_timebase s) (tr_length (cur_track s)) /\
     tr_events (cur_track s') = tr_events (cur_track s) ++ [note_event s (TNote base flag natural len qlen vel timing oct 0)] /\
     tr_length (cur_track s') = tr_length (cur_track s) /\
     cur_ok s' /\ s_harmony_flag s' = false /\ tr_tie_notes (cur_track s') = [] /\
-    s_timebase s' = s_timebase s /\ s_cur s' = s_cur s.
+    s_timebase s' = s_timebase s /\ s_cur s' = s_cur s /\ tr_rsv (cur_track s') = rsv_new.
 Proof. exact note_plain. Qed.
 
 Theorem C06_no_length_is_default : forall tb d : Z, calc_length [] tb d = d.
@@ -133,6 +134,7 @@ Proof. exact div_share_exec. Qed.
    (The collected notes are written last-first: the keys appear in reverse order.) *)
 Theorem C06_chord : forall (ec : list tok -> res song -> res song) (ns : list tok) (len : list ch) (q : Z) (vel : option Z) (s : song),
   Forall is_chord_note ns -> cur_ok s -> s_harmony_flag s = false -> s_harmony_events s = [] -> s_octave_once s = 0 ->
+  tr_rsv (cur_track s) = rsv_new ->       (* nothing reserved on the track *)
   let trk := cur_track s in
   let note_len := calc_length len (s_timebase s) (tr_length trk) in
   let q' := if q <? 0 then tr_qlen trk else q in
